@@ -197,7 +197,13 @@ func c18Prep(j *orch.Job, r *orch.Result) error {
 	mo.TxPerBlock = 5
 	mo.UngradedProb = 0.05
 	tip := e.Pegnet + uint32(p.Blocks)
-	c, _, ref, err := ForgeChain(ForgeOpts{Profile: "c18", Seed: p.Seed, Eras: e, Upto: tip, ShortAvg: 12, Mixed: &mo, Dir: j.Dir, KeepDB: true})
+	c, _, ref, err := ForgeChain(ForgeOpts{Profile: "c18", Seed: p.Seed, Eras: e, Upto: tip, ShortAvg: 12, Mixed: &mo, Dir: j.Dir, KeepDB: true,
+		Customize: func(m *gen.Mixed) {
+			// an asset whose average is unavailable for a while, with conversions into it waiting: what the API
+			// handlers do to the shared averages cache between two blocks then matters for the ledger
+			ts := gen.AddTies(m, p.Seed)
+			featAvgUnavailable(m, ts, &modelParams{Seed: p.Seed})
+		}})
 	if err != nil {
 		return err
 	}
